@@ -255,7 +255,11 @@ func RunC03(t *Trace, st *Stats) *Violation {
 	}
 	// probe keys: near misses of the stored blocks and a fresh CID
 	var probeSpecs []BlkSpec
-	for _, s := range nearMisses(ms.Image.Blocks) {
+	nmOf := ms.Image.Blocks
+	if len(nmOf) > 5000 {
+		nmOf = nmOf[:50] // a very long archive: near-miss probes for its first blocks only
+	}
+	for _, s := range nearMisses(nmOf) {
 		probeSpecs = append(probeSpecs, s)
 	}
 	probeSpecs = append(probeSpecs, BlkSpec{"raw", 777, 5}, BlkSpec{"t20", 777, 5}, BlkSpec{"id", 777, 4})
@@ -327,6 +331,9 @@ func GenC03(seed uint64, run int) *Trace {
 	if r.Chance(1, 40) {
 		LongBlocks(r, &spec)
 	}
+	// (an archive of more than 65536 sections - beyond a 16-bit count or a 65536-record batch - was tried
+	// and dropped: with the reference oracle as it is such an image costs tens of minutes; seeded change
+	// C03-w8m2 needs one and is listed as not detected)
 	if r.Chance(1, 1500) {
 		// more sections than any batch size used internally (4096)
 		spec.Blocks = spec.Blocks[:0]
